@@ -550,6 +550,8 @@ def _shadow_builtins() -> dict[str, Any]:
         return builtins.str(x)
 
     def s_repr(x):
+        if isinstance(x, V.SFin):
+            return builtins.repr(x._resolve())
         if _has_sym(x):
             return V.draw_str('repr()')
         return builtins.repr(x)
